@@ -93,7 +93,12 @@ pub fn scenarios(tier: Tier) -> Vec<Scenario> {
             for &(np, k) in &[(1u32, 1u32), (1, 2), (1, 3), (2, 1), (2, 2)] {
                 for keep_odd in [false, true] {
                     for take in [None, Some(0), Some(1), Some(2)] {
-                        let bound = if np == 2 && k == 2 || k == 3 { 2 } else { 3 };
+                        let bound = match (np, k) {
+                            (1, 1) => 4,
+                            (1, 2) => 3,
+                            (1, 3) | (2, 1) => 2,
+                            _ => 1,
+                        };
                         add(np, k, keep_odd, take, bound);
                     }
                 }
